@@ -143,7 +143,7 @@ PROPS = {
              'isar primitive types are builtin names; parse->patch->evaluate ordering; each patch action writes all slots '
              'of the over-constraint invariant it depends on and checks its documented precondition.',
              'equality of layouts/bytes between the front-ends for all schemas',
-             'constructor-shape agreement, slot-write sets per patch action'),
+             'constructor-shape agreement, slot-write sets per patch action', claimed=True),
     'C18': P('text rendering same in Python and C++',
              'Every sticky stream manipulator in printer.hpp is restored on every path; print_byte escape table equals '
              'CPython bytes repr for single-quoted output; omission rules (counters, absent optionals, undiscriminated '
